@@ -56,6 +56,14 @@ def gen(repo):
     out.append("def reasonPwFailed : List UInt8 := %s" % lean_bytes(m.group(1)))
     m = _must(r"screen->authPasswdFirstViewOnly\s*=\s*(-?\d+)\s*;", main, "default authPasswdFirstViewOnly")
     out.append("def defaultFirstViewOnly : Int := %s" % m.group(1))
+    tight = open(os.path.join(repo, "src/libvncserver/tightvnc-filetransfer/rfbtightserver.c")).read()
+    ncaps = 0
+    for nm in ("N_SMSG_CAPS", "N_CMSG_CAPS", "N_ENC_CAPS"):
+        m = _must(r"#define\s+%s\s+(\d+)" % nm, tight, nm)
+        out.append("def %s : Nat := %s" % (nm, m.group(1)))
+        ncaps += int(m.group(1))
+    out.append("/-- bytes rfbSendInteractionCaps writes after the ServerInit of a TightVNC-extension client -/")
+    out.append("def tightInteractionCapsLen : Nat := sz_rfbInteractionCapsMsg + sz_rfbCapabilityInfo * %d" % ncaps)
     keys = gcry_refused()
     out.append("/-- DES keys (parity bits cleared) libgcrypt's gcry_cipher_setkey refuses as weak -/")
     out.append("def gcryRefusedKeys : List (List UInt8) := [\n  " +
